@@ -98,6 +98,10 @@ var h03Templates = []string{
 	"9007199254740993.?", "900719925474099?", "4503599627370496.?", "1.00000000000000011102230246251565404236316680908203125?", "0.?000000000000000000000001",
 	// plain decimals of 16-19 significant digits: beyond 2^53 a shortcut through an integer and one division rounds twice
 	"94.17601719804?0?", "940497473450.94??", "15.8328277745127??", "0.12345678901234567??", "7205759403792793.?", "123456.789012345678?",
+	// (47..50, arbitrary bytes) an underscore next to the exponent marker
+	"1_e?", "1.5_e?", "?_e5", "1e_?",
+	// (51..55, digits) negative numbers that underflow: the sign of the zero
+	"-1e-33?", "-5e-40?", "-1e-9999?", "-?e-400", "-0.000000000000000000000000000000000000000000000001e-30?",
 }
 
 // H03Template: concrete frames with arbitrary bytes in the holes.
